@@ -28,9 +28,15 @@ func c32Conn(id identity.AgentID) *Connection {
 	return c
 }
 
-// replacement for (*Connection).Close: the transport is not modelled
+// replacement for (*Connection).Close: the transport is not modelled. The hook lets the
+// harness make other things happen while a caller is in the middle of closing connections.
+var c32CloseHook func(c *Connection)
+
 func c32Close(c *Connection) error {
 	c.closeOnce.Do(func() { close(c.closed) })
+	if c32CloseHook != nil {
+		c32CloseHook(c)
+	}
 	return nil
 }
 
@@ -100,5 +106,44 @@ func harnessC32Witness() {
 	m.handleDisconnect(c, errors.New("x"))
 	if calls == 1 && m.GetPeer(id) == nil {
 		verif_assert(false, "witness")
+	}
+}
+
+// DisconnectAll (sleep entry, end of a poll) closes several connections one after
+// the other; a peer whose connection is already closed may reconnect before the
+// loop has finished. That new, live connection stays the registered one.
+func harnessC32DisconnectAll() {
+	var idA, idB identity.AgentID
+	idA[0], idB[0] = 7, 8
+	m := NewManager(ManagerConfig{LocalID: identity.AgentID{1}, OnPeerDisconnect: func(c *Connection, err error) {}, OnFrame: func(c *Connection, f *protocol.Frame) {}})
+	a, b := c32Conn(idA), c32Conn(idB)
+	m.registerConnection(a)
+	m.registerConnection(b)
+	var fresh *Connection
+	closedSoFar := 0
+	c32CloseHook = func(c *Connection) {
+		closedSoFar++
+		if fresh != nil || !verif_nondet_bool() {
+			return
+		}
+		// the read loop of the connection just closed reports it, and the peer is back at once
+		m.handleDisconnect(c, errors.New("closed"))
+		fresh = c32Conn(c.RemoteID)
+		m.registerConnection(fresh)
+	}
+	m.DisconnectAll()
+	c32CloseHook = nil
+	verif_drain()
+	verif_reach("C32/disconnect-all")
+	verif_assert(closedSoFar == 2, "C32/disconnect-all-did-not-close-every-connection")
+	if fresh != nil {
+		verif_reach("C32/reconnect-during-disconnect-all")
+		select {
+		case <-fresh.closed:
+			// closing it as well would be acceptable; then it must not stay registered
+			verif_assert(m.GetPeer(fresh.RemoteID) != fresh, "C32/closed-connection-still-registered")
+		default:
+			verif_assert(m.GetPeer(fresh.RemoteID) == fresh, "C32/registration-differs-from-live-connection")
+		}
 	}
 }
